@@ -1115,7 +1115,7 @@ fn custom_ty(s: &str) -> Vec<u8> {
 const FT0: &str = "rl:-,mid:0";
 
 /// kind V: typed column values whose element count is inflated (2^16, 2^24, i32::MAX) with nothing, a few
-/// elements, or (for 2^16) all the elements behind it: list / set / map / nested list cells and vectors
+/// elements behind it (and an honest count of 2^10 for contrast): list / set / map / nested list cells and vectors
 /// with 65535 dimensions.  The typed targets (Row over CqlValue, Vec<Option<i32>>) must refuse or accept
 /// them with allocations in proportion to the bytes that are there.
 fn inflated_count_cases() -> Vec<String> {
@@ -1160,9 +1160,10 @@ fn inflated_count_cases() -> Vec<String> {
             push(ty, &be32(count)[..3]);
         }
         if *per == 1 && *name != "list<list<int>>" {
-            // 2^16 elements really there (512 KiB of cell)
-            let mut cell = be32(1 << 16).to_vec();
-            for _ in 0..(1 << 16) {
+            // for contrast a large count that is honest: 2^10 elements really there (the model of the typed
+            // values is quadratic in the element count: 2^16 present elements take it minutes)
+            let mut cell = be32(1 << 10).to_vec();
+            for _ in 0..(1 << 10) {
                 cell.extend_from_slice(&be32(4));
                 cell.extend_from_slice(&be32(7));
             }
